@@ -19,7 +19,7 @@ func init() {
 		Explanation: "(R1) type-graph coverage: for every value that can reach the admin surface (the argument of json.Marshal in DumpJSON, every arm of getMOSNConfigRedacted) all access paths in the Go type graph from its static type to a v2.TLSConfig (through struct fields whatever their json tag, pointers, slices, arrays, map values) are enumerated; from the SSA of the redactor functions an access-path summary of where redactTLSConfig is applied is computed (interprocedural, loops abstracted to [*] only for full range loops); every enumerated path must be covered, or be discharged by a verified cleared-by-construction fact (every whole-struct store to conf.MosnConfig is followed by a store of a fresh ClusterManager literal that leaves the cluster lists empty). " +
 			"(R2) redactTLSConfig stores the single placeholder constant into PrivateKey whenever it is non-empty. " +
 			"(R3) freshness: every store performed by the redactors targets memory allocated in the same call (local copies, slices re-made with make+copy before element writes, pointer targets replaced by the address of a local copy, new maps). " +
-			"(R4) the admin packages call only the redacting accessors of configmanager (DumpJSON, HandleMOSNConfig) among the functions that read the effective config and return data; the unredacted accessor and the persist path are not reachable from them. (R1, unconditional) the redaction of a path may be skipped only when a container on that path is empty/nil, or when the value type's MarshalJSON overwrites the field under exactly the same condition; any other condition is reported.",
+			"(R4) the admin packages call only the redacting accessors of configmanager (DumpJSON, HandleMOSNConfig) among the functions that read the effective config and return data; the unredacted accessor and the persist path are not reachable from them. (R1, unconditional) the redaction of a path may be skipped only when a container on that path is empty/nil, or when the value type's MarshalJSON overwrites the field under exactly the same condition; any other condition is reported. (R5) no function of pkg/configmanager that stores a non-empty value into ClusterConfigPath/RouterConfigPath is statically reachable from the functions of pkg/admin/server. (R1, round 7) a value built by a function that reads no TLS-bearing package variable from fully redacted arguments counts as redacted.",
 		Run:      runC20,
 		Thorough: c20Thorough,
 	})
